@@ -3,7 +3,9 @@ package mon
 import (
 	"bytes"
 	"fmt"
+	"runtime"
 	"sort"
+	"time"
 
 	"github.com/brocaar/lorawan"
 
@@ -406,6 +408,14 @@ func c04JoinAccept(c *core.Ctx, r *core.RNG, key [16]byte, major byte) {
 	if p, msg := core.Guard(func() { err = phy.EncryptJoinAcceptPayload(lorawan.AES128Key(encKey)) }); p || err != nil {
 		c.Violate("C04|joinaccept|encrypt-failed", "%v %s", err, msg)
 		return
+	}
+	if r.Chance(1, 200) {
+		// the encrypted frame is held for a while (queued for the RX window) before it is serialised:
+		// two collections with finalizers in between
+		runtime.GC()
+		time.Sleep(2 * time.Millisecond)
+		runtime.GC()
+		time.Sleep(time.Millisecond)
 	}
 	wantCT, _ := spec.JoinAcceptEncrypt(encKey, sj.Payload(), want)
 	var wire []byte
